@@ -57,7 +57,7 @@ package document
 //@ ensures result == imgFile(imageID, fmtExt(format))
 
 // ---- content type -----------------------------------------------------------------------------------------
-//@ spec ctHas(ds []Default, ext string) bool = exists j int :: {ds[j]} 0 <= j && j < len(ds) && ds[j].Extension == ext
+//@ spec ctHasDefault(ds []Default, ext string) bool = exists j int :: {ds[j]} 0 <= j && j < len(ds) && ds[j].Extension == ext
 
 // For each of the three formats a Default entry for the extension of the media part exists afterwards
 // (fmtExt(format) == "." + ctExt(format)); entries that existed stay where they were, at most one is appended.
@@ -65,10 +65,10 @@ package document
 //@ props C10
 //@ requires d != nil
 //@ ensures d.contentTypes != nil && (old(d.contentTypes) != nil ==> d.contentTypes == old(d.contentTypes))
-//@ ensures knownFmt(format) ==> ctHas(d.contentTypes.Defaults, ctExt(format))
+//@ ensures knownFmt(format) ==> ctHasDefault(d.contentTypes.Defaults, ctExt(format))
 //@ ensures old(d.contentTypes) != nil ==> len(d.contentTypes.Defaults) >= old(len(d.contentTypes.Defaults)) && len(d.contentTypes.Defaults) <= old(len(d.contentTypes.Defaults)) + 1
 //@ ensures old(d.contentTypes) != nil ==> forall j int :: 0 <= j && j < old(len(d.contentTypes.Defaults)) ==> d.contentTypes.Defaults[j] == old(d.contentTypes.Defaults[j])
-//@ ensures old(d.contentTypes) != nil && len(d.contentTypes.Defaults) == old(len(d.contentTypes.Defaults)) + 1 ==> d.contentTypes.Defaults[old(len(d.contentTypes.Defaults))].Extension == ctExt(format) && d.contentTypes.Defaults[old(len(d.contentTypes.Defaults))].ContentType == "image/" + ctExt(format) && !old(ctHas(d.contentTypes.Defaults, ctExt(format)))
+//@ ensures old(d.contentTypes) != nil && len(d.contentTypes.Defaults) == old(len(d.contentTypes.Defaults)) + 1 ==> d.contentTypes.Defaults[old(len(d.contentTypes.Defaults))].Extension == ctExt(format) && d.contentTypes.Defaults[old(len(d.contentTypes.Defaults))].ContentType == "image/" + ctExt(format) && !old(ctHasDefault(d.contentTypes.Defaults, ctExt(format)))
 //@ modifies Document.contentTypes, ContentTypes.Defaults, []Default
 //@ loop 1
 //@   invariant 0 <= #i && #i <= len(d.contentTypes.Defaults) && unchangedExcept("Document.contentTypes") && d.contentTypes != nil
@@ -140,7 +140,7 @@ package document
 //@ ensures d.documentRelationships.Relationships[old(len(d.documentRelationships.Relationships))].ID == result0.RelationID
 //@ ensures d.documentRelationships.Relationships[old(len(d.documentRelationships.Relationships))].Type == imageRelType()
 //@ ensures d.documentRelationships.Relationships[old(len(d.documentRelationships.Relationships))].Target == "media/" + imgFile(old(d.nextImageID), fmtExt(format))
-//@ ensures knownFmt(format) ==> ctHas(d.contentTypes.Defaults, ctExt(format))
+//@ ensures knownFmt(format) ==> ctHasDefault(d.contentTypes.Defaults, ctExt(format))
 //@ ensures result0.ID == itoa(old(d.nextImageID)) && result0.Format == format && result0.Width == width && result0.Height == height && result0.Data == imageData && result0.Config == config
 //@ modifies Document.nextImageID, map:string:[]byte, Relationships.Relationships, []Relationship, Document.contentTypes, ContentTypes.Defaults, []Default
 
@@ -166,7 +166,7 @@ package document
 //@ ensures d.documentRelationships.Relationships[old(len(d.documentRelationships.Relationships))].ID == result0.RelationID
 //@ ensures d.documentRelationships.Relationships[old(len(d.documentRelationships.Relationships))].Type == imageRelType()
 //@ ensures d.documentRelationships.Relationships[old(len(d.documentRelationships.Relationships))].Target == "media/" + imgFile(old(d.nextImageID), fmtExt(format))
-//@ ensures knownFmt(format) ==> ctHas(d.contentTypes.Defaults, ctExt(format))
+//@ ensures knownFmt(format) ==> ctHasDefault(d.contentTypes.Defaults, ctExt(format))
 //@ ensures result0.ID == itoa(old(d.nextImageID)) && result0.Format == format && result0.Width == width && result0.Height == height && result0.Data == imageData && result0.Config == config
 //@ ensures d.Body == old(d.Body) && len(d.Body.Elements) == old(len(d.Body.Elements)) + 1
 //@ ensures forall j int :: 0 <= j && j < old(len(d.Body.Elements)) ==> d.Body.Elements[j] == old(d.Body.Elements[j])
@@ -188,7 +188,7 @@ package document
 //@ ensures err == nil ==> d.documentRelationships == old(d.documentRelationships) && len(d.documentRelationships.Relationships) == old(len(d.documentRelationships.Relationships)) + 1 && d.documentRelationships.Relationships[old(len(d.documentRelationships.Relationships))].ID == result0.RelationID && d.documentRelationships.Relationships[old(len(d.documentRelationships.Relationships))].Type == imageRelType() && d.documentRelationships.Relationships[old(len(d.documentRelationships.Relationships))].Target == "media/" + imgFile(old(d.nextImageID), fmtExt(result0.Format))
 //@ ensures err == nil ==> forall j int :: 0 <= j && j < old(len(d.documentRelationships.Relationships)) ==> d.documentRelationships.Relationships[j] == old(d.documentRelationships.Relationships[j])
 //@ ensures err == nil ==> forall j int :: {old(d.documentRelationships.Relationships[j])} 0 <= j && j < old(len(d.documentRelationships.Relationships)) ==> old(d.documentRelationships.Relationships[j].ID) != result0.RelationID
-//@ ensures err == nil && knownFmt(result0.Format) ==> ctHas(d.contentTypes.Defaults, ctExt(result0.Format))
+//@ ensures err == nil && knownFmt(result0.Format) ==> ctHasDefault(d.contentTypes.Defaults, ctExt(result0.Format))
 //@ ensures err == nil ==> d.Body == old(d.Body) && len(d.Body.Elements) == old(len(d.Body.Elements)) + 1 && typeIs(d.Body.Elements[old(len(d.Body.Elements))], "*Paragraph") && fresh(d.Body.Elements[old(len(d.Body.Elements))].(*Paragraph)) && len(d.Body.Elements[old(len(d.Body.Elements))].(*Paragraph).Runs) == 1
 //@ ensures err == nil ==> forall j int :: 0 <= j && j < old(len(d.Body.Elements)) ==> d.Body.Elements[j] == old(d.Body.Elements[j])
 //@ ensures err == nil ==> exists w int, h int :: {itoa(w), itoa(h)} sizeRule(result0, w, h) && drawingIs(d.Body.Elements[old(len(d.Body.Elements))].(*Paragraph).Runs[0].Drawing, result0.RelationID, result0.ID, itoa(w), itoa(h))
@@ -211,7 +211,7 @@ package document
 //@ ensures err == nil ==> d.documentRelationships == old(d.documentRelationships) && len(d.documentRelationships.Relationships) == old(len(d.documentRelationships.Relationships)) + 1 && d.documentRelationships.Relationships[old(len(d.documentRelationships.Relationships))].ID == result0.RelationID && d.documentRelationships.Relationships[old(len(d.documentRelationships.Relationships))].Type == imageRelType() && d.documentRelationships.Relationships[old(len(d.documentRelationships.Relationships))].Target == "media/" + imgFile(old(d.nextImageID), fmtExt(result0.Format))
 //@ ensures err == nil ==> forall j int :: 0 <= j && j < old(len(d.documentRelationships.Relationships)) ==> d.documentRelationships.Relationships[j] == old(d.documentRelationships.Relationships[j])
 //@ ensures err == nil ==> forall j int :: {old(d.documentRelationships.Relationships[j])} 0 <= j && j < old(len(d.documentRelationships.Relationships)) ==> old(d.documentRelationships.Relationships[j].ID) != result0.RelationID
-//@ ensures err == nil && knownFmt(result0.Format) ==> ctHas(d.contentTypes.Defaults, ctExt(result0.Format))
+//@ ensures err == nil && knownFmt(result0.Format) ==> ctHasDefault(d.contentTypes.Defaults, ctExt(result0.Format))
 //@ ensures err == nil ==> len(table.Rows[row].Cells[col].Paragraphs) == old(len(table.Rows[row].Cells[col].Paragraphs)) + 1 && len(table.Rows[row].Cells[col].Paragraphs[old(len(table.Rows[row].Cells[col].Paragraphs))].Runs) == 1
 //@ ensures err == nil ==> forall j int :: 0 <= j && j < old(len(table.Rows[row].Cells[col].Paragraphs)) ==> table.Rows[row].Cells[col].Paragraphs[j] == old(table.Rows[row].Cells[col].Paragraphs[j])
 //@ ensures err == nil ==> exists w int, h int :: {itoa(w), itoa(h)} sizeRule(result0, w, h) && drawingIs(table.Rows[row].Cells[col].Paragraphs[old(len(table.Rows[row].Cells[col].Paragraphs))].Runs[0].Drawing, result0.RelationID, result0.ID, itoa(w), itoa(h))
@@ -263,41 +263,25 @@ package document
 // ---- constructors establish the data invariants ---------------------------------------------------------------
 // New(): the containers exist (docParts), the counter is 0 and no part has a media name — the package parts written
 // by initializeStructure have literal names outside word/media/.
-//@ func New
-//@ props C10
-//@ ensures fresh(result) && docParts(result) && result.nextImageID == 0
-//@ ensures mediaFresh(result)
+// (the contract of New is in zz_contracts_verif_tplclone.go: one contract per function; it carries the two C10 clauses)
 
 // Rendering a template copies the package parts (pictures included) into the new document: no part name appears that
 // neither document had (so mediaFresh carries over together with the copied counter), and every copied part has the
 // bytes of the source part in an array of its own.
-//@ func (*TemplateEngine).cloneAllDocumentParts
-//@ props C10
-//@ requires source != nil && dest != nil && dest.parts != nil && dest.parts != source.parts
-//@ modifies map:string:[]byte
-//@ ensures forall k string :: has(dest.parts, k) ==> old(has(dest.parts, k)) || has(source.parts, k)
-//@ ensures forall k string :: has(source.parts, k) <==> old(has(source.parts, k))
-//@ ensures forall k string :: has(source.parts, k) ==> source.parts[k] == old(source.parts[k])
-//@ ensures forall k string :: has(source.parts, k) && k != "word/document.xml" ==> has(dest.parts, k) && len(dest.parts[k]) == len(source.parts[k]) && freshArr(dest.parts[k])
-//@ ensures forall k string, i int :: has(source.parts, k) && k != "word/document.xml" && 0 <= i && i < len(source.parts[k]) ==> dest.parts[k][i] == old(source.parts[k][i])
-//@ loop 1
-//@   invariant source != nil && dest != nil && source.parts != nil && dest.parts != nil && dest.parts != source.parts && unchangedExcept("map:string:[]byte")
-//@   invariant forall k string :: has(dest.parts, k) ==> old(has(dest.parts, k)) || seen(k)
-//@   invariant forall k string :: seen(k) ==> old(has(source.parts, k))
-//@   invariant forall k string :: (has(source.parts, k) <==> old(has(source.parts, k))) && source.parts[k] == old(source.parts[k])
-//@   invariant forall k string :: seen(k) && k != "word/document.xml" ==> has(dest.parts, k) && len(dest.parts[k]) == len(source.parts[k]) && freshArr(dest.parts[k]) && arr(dest.parts[k]) < allocBound() && (len(dest.parts[k]) > 0 ==> arr(dest.parts[k]) != 0)
-//@   invariant forall k string, i int :: seen(k) && k != "word/document.xml" && 0 <= i && i < len(source.parts[k]) ==> dest.parts[k][i] == old(source.parts[k][i])
+// (cloneAllDocumentParts is under contract in zz_contracts_verif_tplclone.go: one contract per function)
 
 // ---- saving ---------------------------------------------------------------------------------------------------
 // serializeDocumentRelationships rewrites only the relationship part: every media part (and every other part) keeps
 // its bytes, no media name appears. (That the ids written are pairwise different — styles gets rId1 only if the list
 // does not use it — is not observable here: the list goes to xml.MarshalIndent, whose output is unconstrained.)
 //@ func (*Document).serializeDocumentRelationships
-//@ props C10, C02
+//@ props C10, C02, C05, C04, C01
 //@ requires d != nil && d.parts != nil && d.documentRelationships != nil
 //@ modifies map:string:[]byte
 //@ ensures has(d.parts, "word/_rels/document.xml.rels")
 //@ ensures forall k string :: k != "word/_rels/document.xml.rels" ==> has(d.parts, k) == old(has(d.parts, k)) && d.parts[k] == old(d.parts[k])
+//@ ensures forall m map[string][]byte, k string :: m != d.parts ==> (has(m, k) <==> old(has(m, k))) && m[k] == old(m[k])
+//@ ensures freshArr(d.parts["word/_rels/document.xml.rels"])
 //@ loop 1
 //@   invariant 0 <= #i && #i <= len(d.documentRelationships.Relationships) && unchangedHeap()
 //@   decreases len(d.documentRelationships.Relationships) - #i
